@@ -25,6 +25,7 @@ import (
 	"fmt"
 	"io"
 	"os"
+	"os/exec"
 	"path/filepath"
 	"runtime"
 	"sort"
@@ -44,13 +45,46 @@ import (
 	zv "github.com/celestiaorg/celestia-node/zzverif"
 )
 
-const c08HistHeader = `From Coq Require Import List NArith.
+// The case terms avoid numerals, pair notations and scope delimiters (every number is a constant defined once in the
+// header, every tuple is built by a helper function): elaborating the literal notations costs Coq far more time than
+// deciding linearizability of the history.
+var c08HistHeader = func() string {
+	var sb strings.Builder
+	sb.WriteString(`From Coq Require Import List NArith.
 From CN Require Import Store.StoreSpec.
 Import ListNotations.
 Open Scope N_scope.
 Definition o (p : op) (h : N) (r : res) (i j : nat) : hop := mkOp p h r i j.
-Arguments o p h%N r (i j)%nat.
-`
+Definition hp (h : N) (s : hst) : N * hst := (h, s).
+Definition hc (hs : list N) (i : store) (l : list hop) (f : store) : hist_case := (hs, i, l, f).
+`)
+	for i := 0; i < c08NatConsts; i++ {
+		fmt.Fprintf(&sb, "Definition n%d := %d%%nat.\n", i, i)
+	}
+	for i := uint64(0); i < 3; i++ {
+		fmt.Fprintf(&sb, "Definition h%d := %d%%N.\n", c08Base+i*c08Stripes, c08Base+i*c08Stripes)
+	}
+	return sb.String()
+}()
+
+const (
+	c08NatConsts = 64
+	c08Base      = 5 // the three heights are c08Base + i*c08Stripes
+)
+
+func c08HN(h uint64) string {
+	if h >= c08Base && (h-c08Base)%c08Stripes == 0 && (h-c08Base)/c08Stripes < 3 {
+		return fmt.Sprintf("h%d", h)
+	}
+	return zv.N(h)
+}
+
+func c08Nat(i int) string {
+	if i >= 0 && i < c08NatConsts {
+		return fmt.Sprintf("n%d", i)
+	}
+	return fmt.Sprintf("%d%%nat", i)
+}
 
 // ---------------------------------------------------------------- reference blocks
 
@@ -307,12 +341,17 @@ type c08Env struct {
 	flights []atomic.Pointer[c08Flight]
 	hung    atomic.Bool
 
-	holders  atomic.Int32 // readers that have their accessor and wait for the gate
-	gateOpen atomic.Bool
+	pfx    string        // prefix of the histogram names ("race_" in the race-detector run)
+	holdCh chan struct{} // one token per reader that has its accessor and waits for the gate
+	gateCh chan struct{} // closed by the writer marked Gate once every holding reader has its accessor
 }
+
+// c08Patience bounds the waits of the harness on its OWN events (gate, eviction goroutines); it is not an oracle.
+const c08Patience = 90 * time.Second
 
 var c08BlockCache = map[string]*c08Block{}
 var c08RaceSeen int
+var c08Pfx string // "race_" in the race-detector run: the driver merges the histograms of all harness runs by name
 
 func c08Blocks(ks []int, base uint64) ([]*c08Block, error) {
 	var out []*c08Block
@@ -347,7 +386,7 @@ func c08NewEnv(t *testing.T, zr *zv.Run, cfg c08Cfg, goroutines int) (*c08Env, e
 			return nil, err
 		}
 	}
-	if e.blocks, err = c08Blocks(cfg.Ks, 5); err != nil {
+	if e.blocks, err = c08Blocks(cfg.Ks, c08Base); err != nil {
 		return nil, err
 	}
 	e.flights = make([]atomic.Pointer[c08Flight], goroutines)
@@ -360,17 +399,29 @@ func (e *c08Env) violation(sig, desc string) {
 	e.zr.Violation(sig, desc, e.cfg)
 }
 
+// track marks goroutine g as being inside a call into the store (for the watchdog); the returned function ends it.
+// Only calls into the code under test are tracked, never the harness's own waits.
+func (e *c08Env) track(g int, kind string, h int) func() {
+	e.flights[g].Store(&c08Flight{kind: kind, h: h, start: time.Now()})
+	return func() { e.flights[g].Store(nil) }
+}
+
 // do runs one operation of goroutine g, records it, and (for reads) checks every byte served by the accessor.
 func (e *c08Env) do(g int, st c08Step, rng *zv.Rand) {
 	ctx := context.Background()
 	b := e.blocks[st.H]
-	e.flights[g].Store(&c08Flight{kind: st.Kind, h: st.H, start: time.Now()})
-	defer e.flights[g].Store(nil)
 	op := c08Op{G: g, Kind: st.Kind, H: st.H, Res: "ok"}
 	var acc eds.AccessorStreamer
 	var err error
+	var sq *rsmt2d.ExtendedDataSquare
+	if st.Kind == "putq4" || st.Kind == "put" {
+		if sq, err = b.square(); err != nil {
+			e.violation("harness-square", fmt.Sprintf("reference square of height #%d: %v", st.H, err))
+			return
+		}
+	}
 	if st.Gate {
-		need := int32(0)
+		need := 0
 		for _, sc := range e.cfg.Scripts {
 			for _, x := range sc {
 				if x.Hold {
@@ -378,23 +429,25 @@ func (e *c08Env) do(g int, st c08Step, rng *zv.Rand) {
 				}
 			}
 		}
-		for t0 := time.Now(); e.holders.Load() < need && time.Since(t0) < 20*time.Second; {
-			runtime.Gosched()
-		}
-		e.gateOpen.Store(true)
-	}
-	op.Inv = e.clock.Add(1)
-	switch st.Kind {
-	case "putq4", "put":
-		var sq *rsmt2d.ExtendedDataSquare
-		if sq, err = b.square(); err == nil {
-			op.Inv = e.clock.Add(1)
-			if st.Kind == "putq4" {
-				err = e.s.PutODSQ4(ctx, b.roots, b.h, sq)
-			} else {
-				err = e.s.PutODS(ctx, b.roots, b.h, sq)
+		timeout := time.After(c08Patience)
+	wait:
+		for ; need > 0; need-- {
+			select {
+			case <-e.holdCh:
+			case <-timeout:
+				e.zr.Count("harness", "gate opened before every reader had its accessor")
+				break wait
 			}
 		}
+		close(e.gateCh)
+	}
+	op.Inv = e.clock.Add(1)
+	end := e.track(g, st.Kind, st.H)
+	switch st.Kind {
+	case "putq4":
+		err = e.s.PutODSQ4(ctx, b.roots, b.h, sq)
+	case "put":
+		err = e.s.PutODS(ctx, b.roots, b.h, sq)
 	case "get":
 		acc, err = e.s.GetByHeight(ctx, b.h)
 	case "cget":
@@ -412,6 +465,7 @@ func (e *c08Env) do(g int, st c08Step, rng *zv.Rand) {
 	case "rmq4":
 		err = e.s.RemoveQ4(ctx, b.h, b.hash)
 	}
+	end()
 	op.Ret = e.clock.Add(1)
 	if st.Kind == "get" || st.Kind == "cget" {
 		switch {
@@ -429,11 +483,13 @@ func (e *c08Env) do(g int, st c08Step, rng *zv.Rand) {
 	e.mu.Lock()
 	e.hist = append(e.hist, op)
 	e.mu.Unlock()
-	e.zr.Count("ops", st.Kind+":"+op.Res)
+	e.zr.Count(e.pfx+"ops", st.Kind+":"+op.Res)
 	if st.Hold {
-		e.holders.Add(1)
-		for t0 := time.Now(); !e.gateOpen.Load() && time.Since(t0) < 20*time.Second; {
-			runtime.Gosched()
+		e.holdCh <- struct{}{} // buffered: never blocks
+		select {
+		case <-e.gateCh:
+		case <-time.After(c08Patience):
+			e.zr.Count("harness", "reader gave up waiting for the gate")
 		}
 		for j := rng.Intn(300); j > 0; j-- {
 			runtime.Gosched()
@@ -445,8 +501,10 @@ func (e *c08Env) do(g int, st c08Step, rng *zv.Rand) {
 	// the reader keeps the accessor while the others remove / re-put / evict, and checks every byte
 	for i := 0; i < st.Reads; i++ {
 		kind := rng.Intn(9)
+		end := e.track(g, "read-after-"+st.Kind, st.H)
 		what, bad := c08Read(ctx, acc, b, rng, kind)
-		e.zr.Count("reads", strings.SplitN(what, "(", 2)[0])
+		end()
+		e.zr.Count(e.pfx+"reads", strings.SplitN(what, "(", 2)[0])
 		if bad != "" {
 			sig := "torn-read"
 			if strings.HasPrefix(bad, "error") {
@@ -458,7 +516,10 @@ func (e *c08Env) do(g int, st c08Step, rng *zv.Rand) {
 			runtime.Gosched()
 		}
 	}
-	if err := acc.Close(); err != nil {
+	end = e.track(g, "close-after-"+st.Kind, st.H)
+	err = acc.Close()
+	end()
+	if err != nil {
 		e.violation("close-error", fmt.Sprintf("closing an accessor of height #%d: %v", st.H, err))
 	}
 }
@@ -755,9 +816,9 @@ func (e *c08Env) check(init, final []int, g *zv.Group, emit bool) {
 	}
 	var hs, in, fin, ops []string
 	for i, b := range e.blocks {
-		hs = append(hs, fmt.Sprint(b.h))
-		in = append(in, fmt.Sprintf("(%d, %s)", b.h, c08StateName[init[i]]))
-		fin = append(fin, fmt.Sprintf("(%d, %s)", b.h, c08StateName[final[i]]))
+		hs = append(hs, c08HN(b.h))
+		in = append(in, fmt.Sprintf("hp %s %s", c08HN(b.h), c08StateName[init[i]]))
+		fin = append(fin, fmt.Sprintf("hp %s %s", c08HN(b.h), c08StateName[final[i]]))
 	}
 	overlap := false
 	looseAll := make([]bool, len(hist))
@@ -781,14 +842,14 @@ func (e *c08Env) check(init, final []int, g *zv.Group, emit bool) {
 		} else if o.Res != "ok" {
 			e.zr.Count("hist_reads", "constrained")
 		}
-		ops = append(ops, fmt.Sprintf("o %s %d %s %d %d", c08OpName[o.Kind], e.blocks[o.H].h, res, pos[o.Inv], pos[o.Ret]))
+		ops = append(ops, fmt.Sprintf("o %s %s %s %s %s", c08OpName[o.Kind], c08HN(e.blocks[o.H].h), res, c08Nat(pos[o.Inv]), c08Nat(pos[o.Ret])))
 		for _, p := range hist[:i] {
 			if p.H == o.H && p.Ret > o.Inv && p.G != o.G {
 				overlap = true
 			}
 		}
 	}
-	term := fmt.Sprintf("([%s], [%s], [%s], [%s])", strings.Join(hs, "; "), strings.Join(in, "; "), strings.Join(ops, "; "), strings.Join(fin, "; "))
+	term := fmt.Sprintf("hc [%s] [%s] [%s] [%s]", strings.Join(hs, "; "), strings.Join(in, "; "), strings.Join(ops, "; "), strings.Join(fin, "; "))
 	key := ""
 	if overlap && !bad {
 		key = term
@@ -823,12 +884,39 @@ func c08FDs() (int, []string) {
 	return len(ents), names
 }
 
-// drain: remove every block (which empties the caches), let the eviction goroutines finish, and compare the number of
-// open files of the store directory with zero — first as it is, then after a garbage collection.
+// c08Busy counts the goroutines other than the calling one that still have a frame of the store packages on their
+// stack (or were created there and have not started).  After the scripts have ended these can only be what the store
+// itself has left behind: the goroutines the accessor cache spawns to close evicted entries (evictFn: `go ac.close()`).
+func c08Busy() int {
+	buf := make([]byte, 1<<20)
+	for {
+		n := runtime.Stack(buf, true)
+		if n < len(buf) {
+			buf = buf[:n]
+			break
+		}
+		buf = make([]byte, 2*len(buf))
+	}
+	cnt := 0
+	for i, blk := range strings.Split(string(buf), "\n\n") {
+		if i > 0 && strings.Contains(blk, "celestia-node/store") { // block 0 is the caller
+			cnt++
+		}
+	}
+	return cnt
+}
+
+// drain: remove every block (which empties the caches), wait until the store is at rest — every operation has
+// returned, every accessor handed out is closed and no eviction goroutine of the caches is left — and compare the open
+// files of the store directory with none.  Whatever is open then has been dropped by the store without Close();
+// a garbage collection tells whether at least the os.File finalizer still gets it.
 func (e *c08Env) drain() {
 	ctx := context.Background()
-	for _, b := range e.blocks {
-		if err := e.s.RemoveODSQ4(ctx, b.h, b.hash); err != nil {
+	for i, b := range e.blocks {
+		end := e.track(0, "rm", i)
+		err := e.s.RemoveODSQ4(ctx, b.h, b.hash)
+		end()
+		if err != nil {
 			e.violation("op-error-rm", fmt.Sprintf("final removal: %v", err))
 		}
 	}
@@ -840,28 +928,42 @@ func (e *c08Env) drain() {
 				mine = append(mine, strings.TrimPrefix(n, e.dir))
 			}
 		}
+		sort.Strings(mine)
 		return mine
 	}
-	var open []string
-	deadline := time.Now().Add(3 * time.Second) // the eviction goroutines only have Close() left to do
-	for {
-		open = count()
-		if len(open) == 0 || time.Now().After(deadline) {
+	// every reference is released, so an eviction goroutine has nothing to wait for: it ends as soon as it is scheduled
+	for t0, i := time.Now(), 0; c08Busy() > 0; i++ {
+		if time.Since(t0) > c08Patience {
+			buf := make([]byte, 1<<16)
+			buf = buf[:runtime.Stack(buf, true)]
+			e.violation("evict-hangs", "all references are released and every block is removed, but a goroutine of the store (cache eviction) does not end:\n"+c08Trim(string(buf)))
+			return
+		}
+		if i < 50 {
+			runtime.Gosched()
+		} else {
+			time.Sleep(time.Millisecond)
+		}
+	}
+	open := count()
+	if len(open) == 0 {
+		e.zr.Count(e.pfx+"fd_check", "clean")
+		return
+	}
+	var after []string
+	for i := 0; i < 40; i++ { // finalizers run in their own goroutine after a collection
+		runtime.GC()
+		time.Sleep(5 * time.Millisecond)
+		if after = count(); len(after) == 0 {
 			break
 		}
-		time.Sleep(2 * time.Millisecond)
 	}
-	if len(open) > 0 {
-		runtime.GC()
-		runtime.GC()
-		time.Sleep(10 * time.Millisecond)
-		after := count()
-		sig := "fd-leak-until-gc"
-		if len(after) > 0 {
-			sig = "fd-leak"
-		}
-		e.violation(sig, fmt.Sprintf("every accessor is closed and every block removed, still open: %v (after GC: %v)", open, after))
+	sig := "fd-leak-until-gc"
+	if len(after) > 0 {
+		sig = "fd-leak"
 	}
+	e.zr.Count(e.pfx+"fd_check", sig)
+	e.violation(sig, fmt.Sprintf("the store is at rest (every operation returned, every accessor closed, every block removed, no eviction goroutine left); still open: %v; after garbage collection: %v", open, after))
 }
 
 // ---------------------------------------------------------------- race detector
@@ -958,8 +1060,8 @@ func c08Round(t *testing.T, zr *zv.Run, cfg c08Cfg, g *zv.Group, reuse map[strin
 		}
 	}
 	e.cfg = cfg
-	e.holders.Store(0)
-	e.gateOpen.Store(false)
+	e.pfx = c08Pfx
+	e.holdCh, e.gateCh = make(chan struct{}, 64), make(chan struct{})
 	var t1, t2, t3 time.Time
 	if os.Getenv("VERIF_C08_DEBUG") != "" {
 		defer func() {
@@ -971,9 +1073,9 @@ func c08Round(t *testing.T, zr *zv.Run, cfg c08Cfg, g *zv.Group, reuse map[strin
 	}
 	init := e.content(false)
 	t1 = time.Now()
-	rng := zv.NewRand(cfg.Seed)
-	for _, st := range cfg.Pre { // sequential prologue (part of the history)
-		e.do(0, st, rng)
+	// sequential prologue (part of the history), under the watchdog like everything else
+	if len(cfg.Pre) > 0 && !e.run([][]c08Step{cfg.Pre}, cfg.Seed^0x5bd1e995, nil) {
+		return false
 	}
 	if !e.run(cfg.Scripts, cfg.Seed, nil) {
 		return false
@@ -986,8 +1088,8 @@ func c08Round(t *testing.T, zr *zv.Run, cfg c08Cfg, g *zv.Group, reuse map[strin
 		e.drain()
 		e.close()
 	}
-	zr.Count("rounds", cfg.Shape)
-	zr.Count("cache_sizes", fmt.Sprintf("recent=%d cached=%d", cfg.Recent, cfg.Cached))
+	zr.Count(c08Pfx+"rounds", cfg.Shape)
+	zr.Count(c08Pfx+"cache_sizes", fmt.Sprintf("recent=%d cached=%d", cfg.Recent, cfg.Cached))
 	if rep := c08RaceReports(); len(rep) > c08RaceSeen {
 		txt := rep[c08RaceSeen:]
 		c08RaceSeen = len(rep)
@@ -995,10 +1097,19 @@ func c08Round(t *testing.T, zr *zv.Run, cfg c08Cfg, g *zv.Group, reuse map[strin
 			txt = txt[:3000]
 		}
 		sig := "data-race"
-		if i := strings.Index(txt, "celestia-node/"); i >= 0 { // first frame inside the repository names the class
-			end := strings.IndexAny(txt[i:], "()\n ")
-			if end > 0 {
-				sig = "data-race-" + strings.ReplaceAll(txt[i+len("celestia-node/"):i+end], "/", ".")
+		for _, ln := range strings.Split(txt, "\n") { // the first frame inside the repository names the class
+			if i := strings.Index(ln, "celestia-node/"); i >= 0 && !strings.Contains(ln, ".go:") {
+				name := strings.TrimSuffix(strings.TrimSpace(ln[i+len("celestia-node/"):]), "()")
+				sig = "data-race-" + strings.Map(func(c rune) rune {
+					switch {
+					case c >= 'a' && c <= 'z', c >= 'A' && c <= 'Z', c >= '0' && c <= '9', c == '.', c == '-':
+						return c
+					case c == '/':
+						return '.'
+					}
+					return -1
+				}, name)
+				break
 			}
 		}
 		e.violation(sig, "the race detector reported during this round:\n"+txt)
@@ -1012,9 +1123,18 @@ func c08Plans(r *zv.Run) []c08Cfg {
 	root := r.Rand()
 	var shapes [][]c08Cfg
 
+	// (0) sequential: a block that is already stored is put again (all four combinations of PutODS / PutODSQ4), one
+	//     goroutine, no concurrency: whatever the descriptor check finds here has a deterministic replay
+	var reput []c08Cfg
+	for i, n := 0, r.N(4, 48); i < n; i++ {
+		kinds := []string{"put", "putq4"}
+		reput = append(reput, c08Cfg{Recent: (i / 4) % 3, Cached: 1, Ks: []int{2, 2, 2}, Seed: root.U64(), Shape: "reput",
+			Pre: []c08Step{{Kind: kinds[i%2], H: 0}}, Scripts: [][]c08Step{{{Kind: kinds[(i/2)%2], H: 0}, {Kind: "get", H: 0, Reads: 2}}}})
+	}
+
 	// (1) micro rounds: 3 goroutines x 2-3 operations over 2 heights; the recorded histories go to Coq
 	var micro []c08Cfg
-	for i, n := 0, r.N(260, 3000); i < n; i++ {
+	for i, n := 0, r.N(160, 3000); i < n; i++ {
 		seed := root.U64()
 		rng := zv.NewRand(seed)
 		cfg := c08Cfg{Recent: i % 3, Cached: 1 + (i/3)%2, Ks: []int{2, 2, 2}, Seed: seed, Shape: "micro"}
@@ -1033,7 +1153,7 @@ func c08Plans(r *zv.Run) []c08Cfg {
 	//         then PutODSQ4 adds the Q4 file;  b: the block is stored in full, readers hold accessors that have not
 	//         touched Q4 yet, then RemoveODSQ4 + PutODSQ4 re-create the files under the same paths
 	var lazy []c08Cfg
-	for i, n := 0, r.N(40, 600); i < n; i++ {
+	for i, n := 0, r.N(16, 600); i < n; i++ {
 		cfg := c08Cfg{Recent: i % 2, Cached: 1, Ks: []int{32, 2, 2}, Seed: root.U64(), Shape: "lazyq4"}
 		if i%4 < 2 {
 			cfg.Pre = []c08Step{{Kind: "put", H: 0}, {Kind: "put", H: 1}} // the second put evicts the in-memory square of the first
@@ -1058,7 +1178,7 @@ func c08Plans(r *zv.Run) []c08Cfg {
 
 	// (3) directed: CachedStore.GetByHeight against RemoveODSQ4 of the same height
 	var cr []c08Cfg
-	for i, n := 0, r.N(120, 3000); i < n; i++ {
+	for i, n := 0, r.N(60, 3000); i < n; i++ {
 		cfg := c08Cfg{Recent: i % 3, Cached: 1 + i%2, Ks: []int{2, 2, 2}, Seed: root.U64(), Shape: "cachedremove"}
 		cfg.Scripts = [][]c08Step{
 			{{Kind: "rm", H: 0}},
@@ -1075,7 +1195,7 @@ func c08Plans(r *zv.Run) []c08Cfg {
 
 	// (4) stress: many goroutines, all operations, three heights on one stripe, cache sizes 0..2
 	var stress []c08Cfg
-	for i, n := 0, r.N(40, 1500); i < n; i++ {
+	for i, n := 0, r.N(24, 1500); i < n; i++ {
 		seed := root.U64()
 		rng := zv.NewRand(seed)
 		ks := []int{4, 2, 8}
@@ -1095,6 +1215,9 @@ func c08Plans(r *zv.Run) []c08Cfg {
 		cfg c08Cfg
 	}
 	var all []slot
+	for _, c := range reput { // first: the first violation of a signature is the one the driver writes as the replay
+		all = append(all, slot{0, c})
+	}
 	for _, sh := range shapes {
 		for i, c := range sh {
 			all = append(all, slot{(float64(i) + 0.5) / float64(len(sh)), c})
@@ -1108,13 +1231,27 @@ func c08Plans(r *zv.Run) []c08Cfg {
 	return out
 }
 
-func TestVerifC08(t *testing.T) {
+func TestVerifC08(t *testing.T) { c08Main(t, false) }
+
+// c08Main is the body of TestVerifC08 (plain build: the recorded histories go to Coq) and of TestVerifC08Race (the same
+// rounds in a binary built with -race, for the detector's verdict; see zz_verif_c08_race_test.go).
+func c08Main(t *testing.T, race bool) {
 	r := zv.Start(t, "C08")
 	defer r.Finish()
-	g := r.Group("hist", c08HistHeader, "hist_case", "CN.Store.StoreSpec.mismatches")
-	r.Set("lock_stripes", c08Stripes)
-	c08ClearRaceReports()
-	r.Set("race_detector", c08RaceEnabled)
+	var groups []*zv.Group
+	if race {
+		c08Pfx = "race_"
+		c08ClearRaceReports()
+		defer c08ClearRaceReports() // what they said has become violations
+		r.Set("race_detector", c08RaceEnabled)
+		r.Set("race_detector_selftest", c08RaceSelfTest(r))
+	} else {
+		// several groups = several case files, which the driver evaluates in parallel
+		for i := 0; i < r.N(2, 8); i++ {
+			groups = append(groups, r.Group(fmt.Sprintf("hist%d", i), c08HistHeader, "hist_case", "CN.Store.StoreSpec.mismatches"))
+		}
+		r.Set("lock_stripes", c08Stripes)
+	}
 
 	var rep c08Cfg
 	if r.ReplayInput(&rep) && len(rep.Scripts) > 0 {
@@ -1127,27 +1264,85 @@ func TestVerifC08(t *testing.T) {
 		return
 	}
 
-	deadline := time.Now().Add(time.Duration(r.N(24, 540)) * time.Second)
+	// the plan of the quick tier takes about 8 s on an idle machine (several times that with the race detector); the
+	// deadline only keeps a loaded machine or the instrumented binary within the tier's budget: the rounds are
+	// interleaved by shape, so a run that is cut short has done its share of each
+	budget := r.N(14, 540)
+	if race {
+		budget = r.N(10, 540)
+	}
+	deadline := time.Now().Add(time.Duration(budget) * time.Second)
 	reuse := map[string]*c08Env{}
 	plans := c08Plans(r)
-	done := 0
+	done, micro := 0, 0
 	for _, cfg := range plans {
 		if time.Now().After(deadline) {
 			break
 		}
 		var ru map[string]*c08Env
+		var g *zv.Group
 		if cfg.Shape == "micro" {
 			ru = reuse
+			if len(groups) > 0 {
+				g = groups[micro%len(groups)]
+			}
+			micro++
 		}
 		if !c08Round(t, r, cfg, g, ru) {
 			return // an operation hangs: goroutines of this round are still stuck in the store
 		}
 		done++
 	}
-	for _, e := range reuse {
+	for _, k := range zv.SortedKeys(reuse) {
+		e := reuse[k]
+		e.cfg.Shape = "micro (descriptors counted after ALL micro rounds on the store with these cache sizes; this is the last of them)"
 		e.drain()
 		e.close()
 	}
-	r.Set("rounds_planned", len(plans))
-	r.Set("rounds_run", done)
+	r.Set(c08Pfx+"rounds_planned", len(plans))
+	r.Set(c08Pfx+"rounds_run", done)
+}
+
+// c08RaceSelfTest makes sure the race detector's verdict reaches this harness: a child process (this test binary, test
+// TestVerifC08RaceProbe) commits one data race on a variable of its own, and its report must show up in the log files
+// the harness reads after every round.  (In a child, because the testing package fails a test during which the detector
+// reported anything.)
+func c08RaceSelfTest(r *zv.Run) bool {
+	if !c08RaceEnabled || c08RaceLogPrefix() == "" {
+		r.Violation("harness-race-detector-off", "the race harness runs without the race detector or without GORACE=log_path", nil)
+		return false
+	}
+	cmd := exec.Command(os.Args[0], "-test.run", "^TestVerifC08RaceProbe$", "-test.count", "1")
+	cmd.Env = append(os.Environ(), "VERIF_C08_RACE_PROBE=1")
+	out, _ := cmd.CombinedOutput() // the probe fails by design
+	rep := c08RaceReports()
+	c08RaceSeen = len(rep)
+	if !strings.Contains(rep, "DATA RACE") || !strings.Contains(rep, "c08RaceProbe") {
+		tail := string(out)
+		if len(tail) > 600 {
+			tail = tail[len(tail)-600:]
+		}
+		r.Violation("harness-race-detector-silent", "a deliberate data race (child process) was not reported in "+c08RaceLogPrefix()+".*; output of the probe: "+tail, nil)
+		return false
+	}
+	return true
+}
+
+func c08RaceProbe() int {
+	x := 0
+	var wg sync.WaitGroup
+	for i := 0; i < 2; i++ {
+		wg.Add(1)
+		go func(i int) { defer wg.Done(); x += i + 1 }(i)
+	}
+	wg.Wait()
+	return x
+}
+
+// TestVerifC08RaceProbe is inert unless started by c08RaceSelfTest.
+func TestVerifC08RaceProbe(t *testing.T) {
+	if os.Getenv("VERIF_C08_RACE_PROBE") == "" {
+		t.Skip("only as a child of TestVerifC08Race")
+	}
+	t.Log(c08RaceProbe())
 }
